@@ -241,7 +241,7 @@ ASSUMPTIONS = ["poll function scripted for its first `script_calls` calls (per d
                "operation intervals: a resolving call is a yield_result/yield_exception call, a raising poll call, or a cancel() that returned True"]
 BOUNDS_TEXT = {"quick": "2 futures, 2 scripted poll calls, optional cancel()/cancel function/notify(); P<=1", "thorough": "3 futures, P<=2"}
 MUST_REACH = {"*": ["must-present", "yield-checked", "poll-raise-checked", "prompt-checked"]}
-BUDGET = {"quick": 150.0, "thorough": 1200.0}
+BUDGET = {"quick": 150.0, "thorough": 600.0}
 
 
 def plan(tier, seed):
